@@ -89,6 +89,12 @@ func cliF(i int) *Program {
 func cliN(i int) *Program {
 	id := fmt.Sprintf("n%d", i)
 	b := NewPB(id, "app")
+	if i%6 == 4 {
+		// a directory that only holds a test file
+		b.P.Extra = map[string]string{"0/only_test.go": "package app\n\nimport \"testing\"\n\nfunc TestNothing(t *testing.T) {}\n"}
+		b.P.Note = "cli-N"
+		return b.P
+	}
 	a := b.Carrier(0, "A")
 	fa := b.Func(0, "NewA", a, false, false)
 	if i%2 == 1 {
@@ -250,9 +256,9 @@ func genScenario(e *Env, i int) cliScenario {
 			}
 			cp.Prior = []string{"absent", "stale", "garbage"}[r.Intn(3)]
 		case 'N':
-			cp = cliPkg{P: cliN((i + usedN) % 4), Class: 'N'}
+			cp = cliPkg{P: cliN((i + usedN) % 6), Class: 'N'}
 			usedN++
-			if usedN > 4 {
+			if usedN > 6 {
 				continue
 			}
 			cp.Prior = []string{"absent", "stale", "garbage"}[r.Intn(3)]
